@@ -130,6 +130,8 @@ class CodeBlocks(Space):
                         if (ch in "`ab" and "`" in INFOS[info]) or (ch == "I" and info):
                             continue
                         for n in range(0, self.maxlines + 1):
+                            if n >= 3 and info > 1:
+                                continue   # three content lines: without and with a plain info string only (the full product took > 25 min)
                             pools = [self.line_ids] * min(n, 2) + [self.line_reps] * max(0, n - 2)
                             for ls in itertools.product(*pools):
                                 for term in (True, False):
